@@ -330,12 +330,12 @@ def run_C04(run):
 
 # ------------------------------------------------------------------------------------------ C09
 def run_C09(run):
-    cfgs = [("Gen_C09", []), ("Gen_C09_LH", ["-DGLM_FORCE_LEFT_HANDED"])]
+    cfgs = [("Gen_C09", []), ("Gen_C09_LH", ["-DGLM_FORCE_LEFT_HANDED"]), ("Gen_C09_ZO", ["-DGLM_FORCE_DEPTH_ZERO_TO_ONE"]), ("Gen_C09_LHZO", ["-DGLM_FORCE_LEFT_HANDED", "-DGLM_FORCE_DEPTH_ZERO_TO_ONE"])]
     stats = par([lambda m=m, fl=fl: run.build_trace("tr_C09", m, ["-DVT_NO_ASSERT"] + fl) for m, fl in cfgs])
     trace_cov(run, stats)
     gens = [os.path.join(run.dir, m + ".v") for m, _ in cfgs if os.path.exists(os.path.join(run.dir, m + ".v"))]
     run.prove(gens, [], ["C09/P_C09.v", "C09/P_C09_lookat.v"], "C09/Properties_C09.v")
-    fails = oracle_sweep(run, "C09", [("rh", []), ("lh", ["-DGLM_FORCE_LEFT_HANDED"])], run.tier)
+    fails = oracle_sweep(run, "C09", [("rh", []), ("lh", ["-DGLM_FORCE_LEFT_HANDED"]), ("rh_zo", ["-DGLM_FORCE_DEPTH_ZERO_TO_ONE"]), ("lh_zo", ["-DGLM_FORCE_LEFT_HANDED", "-DGLM_FORCE_DEPTH_ZERO_TO_ONE"])], run.tier)
     run.fails = run.triage(fails)
     run.assumptions = ["real-number semantics of the traced float expressions",
                        "partial: decompose/recompose, interpolate, extractMatrixRotation, axisAngle, up-in-+y-half-plane and orthonormality of the lookAt rotation block are exercised by oracle_C09 only (testing), not proved"]
